@@ -8,6 +8,7 @@ import (
 	"sort"
 	"strings"
 	"time"
+	"unicode"
 
 	"verif/sim"
 	"verif/world"
@@ -189,3 +190,44 @@ func has2FA(c world.Cfg, u *world.User) bool {
 	}
 	return (c.Has2FA("totp") && u.TOTPSecretKey != "") || (c.Has2FA("sms") && u.SMSPhone != "")
 }
+
+// defaultPwOK is an independent evaluation of the shipped default password policy (min 8 bytes,
+// at least one upper, lower, digit and symbol, no whitespace) — exact on ASCII; non-ASCII runes
+// are classified with package unicode (the byte/rune question is scoped out of the properties).
+func defaultPwOK(pw string) bool {
+	if len(pw) < 8 {
+		return false
+	}
+	var up, lo, di, sy, ws int
+	for _, c := range pw {
+		switch {
+		case c >= 'A' && c <= 'Z':
+			up++
+		case c >= 'a' && c <= 'z':
+			lo++
+		case c >= '0' && c <= '9':
+			di++
+		case c == ' ' || (c >= '\t' && c <= '\r') || c == 0x85 || c == 0xA0:
+			ws++
+		case c < 0x80:
+			sy++
+		default:
+			switch {
+			case unicode.IsLetter(c) && unicode.IsUpper(c):
+				up++
+			case unicode.IsLetter(c):
+				lo++
+			case unicode.IsDigit(c):
+				di++
+			case unicode.IsSpace(c):
+				ws++
+			default:
+				sy++
+			}
+		}
+	}
+	return up >= 1 && lo >= 1 && di >= 1 && sy >= 1 && ws == 0
+}
+
+// hashable reports whether bcrypt will accept the password (x/crypto refuses > 72 bytes).
+func hashable(pw string) bool { return len(pw) <= 72 }
